@@ -7,6 +7,8 @@ CONSTANTS
   Root = 0
   RootMax = TRUE
   Depth = 3
+  Root2 = 9999
+  Root2Max = TRUE
   KeyMode = "full"
 INVARIANTS ExactValue ExactTasks
 PROPERTY Terminates
